@@ -707,7 +707,9 @@ pub fn suite_c03(ctx: &mut Ctx) {
     }
     // screening sweep over a seeded coset of all P32E2 patterns (selection only; see screen.rs)
     let l2 = ctx.q(28, 32) as u32;
-    crate::screen::screen_unary32(ctx, &P32T, &["to_f32", "to_f64"], l2);
+    crate::screen::screen_unary32(ctx, &P32T, &["to_f32", "to_f64", "f64_roundtrip"], l2);
+    let l2 = ctx.q(24, 30) as u32;
+    crate::screen::screen_unary32(ctx, &P32T, &["str_roundtrip"], l2);
 }
 
 pub fn suite_c07(ctx: &mut Ctx) {
